@@ -8,6 +8,7 @@ import (
 	"fmt"
 	"os"
 	"sync"
+	"unsafe"
 )
 
 // Tracing hooks for the verification harness in /verif (build tag "verif").
@@ -39,6 +40,8 @@ type VerifEvent struct {
 	Op   VerifOp    `json:"op"`
 	Post VerifState `json:"post"`
 	Inv  bool       `json:"inv"`
+	// Addr identifies the Buffer object (not serialised).
+	Addr uintptr `json:"-"`
 }
 
 // VerifSink receives the events; nil (the default) disables tracing.
@@ -70,7 +73,7 @@ func verifTrace(b *Buffer, op string, p []byte, n int) func() {
 		if len(b.buf) > 2*VerifMaxLen {
 			return
 		}
-		sink(VerifEvent{"buf", pre, vop, verifSnap(b), false})
+		sink(VerifEvent{"buf", pre, vop, verifSnap(b), false, uintptr(unsafe.Pointer(b))})
 	}
 }
 
